@@ -1,3 +1,190 @@
-(* C07 — statements are added when the corresponding facts file lands *)
-From SV Require Import Bytes Lexer Tables ArgCheck Machine Printer GenTables.
-Theorem C07_placeholder : True. Proof. exact I. Qed.
+(* C07 — extension use is gated by require.
+
+   Model: sieve/Machine.v (Parser), sieve/ArgCheck.v (check_next_arg), over the tables
+   regenerated from /repo on every run (gen/GenTables.v).  Proofs: sieve/GateFacts.v.
+   Shape of the argument ("preceded in the script by a require"):
+     (a) the loaded set only grows, and only when a command whose completion hook is
+         RequireCommand.complete_cb is closed by ';' (C07_only_require_loads, C07_loaded_monotone,
+         C07_loaded_was_required);
+     (b) at the moment a command is instantiated / a slot takes a tag or match type, the extension
+         it belongs to is in the loaded set of that moment (C07_command_gate, C07_argument_gate);
+     (c) invariant over all reachable parser states, hence for every accepted script — regular or
+         not — every extension needed anywhere in the tree is loaded (C07_accept);
+     (d) the table the gates consult covers the frozen RFC list of extension-owned commands, tags
+         and match types (C07_tables_cover_frozen, a vm_compute obligation over the generated
+         tables), and has no blind spot (C07_no_blind_spot).
+   Removal direction ("rejected with extension '<x>' not loaded, x first in script order"): the
+   three gate examples below are computed on the model; the general statement needs
+   C01_complete and is exercised on the implementation by the check (all (script, extension)
+   pairs of the generator). *)
+From Coq Require Import String.
+From Coq Require Import List NArith Bool Arith.
+From SV Require Import Bytes Lexer Tables ArgCheck ArgSpec Machine Printer GenTables.
+Import ListNotations.
+Local Open Scope nat_scope.
+From SV Require Import GateFacts.
+
+(* one parser step changes the loaded set only by completing a require with ';' (loaded_step) *)
+Theorem C07_only_require_loads :
+  forall (T : tables) (st : pstate) (t : token) (st' : pstate),
+  process T st t = MTrue st' -> loaded_step st t st'.
+Proof. exact GateFacts.process_loaded_true. Qed.
+Print Assumptions C07_only_require_loads.
+
+(* the loaded set never shrinks *)
+Theorem C07_loaded_monotone :
+  forall (T : tables) (st : pstate) (t : token) (st' : pstate),
+  process T st t = MTrue st' \/ process T st t = MRewind st' ->
+  incl (p_loaded st) (p_loaded st').
+Proof. exact GateFacts.process_loaded_incl. Qed.
+Print Assumptions C07_loaded_monotone.
+
+(* in every reachable state the loaded set was built from [] by requires, in order *)
+Theorem C07_loaded_trace :
+  forall (T : tables) (st : pstate), reachable T st -> require_trace (p_loaded st).
+Proof. exact GateFacts.reachable_require_trace. Qed.
+Print Assumptions C07_loaded_trace.
+
+(* every loaded extension is the unquoted form of a capability named by some require *)
+Theorem C07_loaded_was_required :
+  forall (L : list bytes) (e : bytes),
+  require_trace L ->
+  mem e L = true ->
+  exists (f : frame) (items : list bytes) (x : bytes),
+    d_complete (f_def f) = HRequire /\ caps_of f items /\ In x items /\ e = strip_dq x.
+Proof. exact GateFacts.loaded_was_required. Qed.
+Print Assumptions C07_loaded_was_required.
+
+(* a command that belongs to an extension is instantiated only while that extension is loaded *)
+Theorem C07_command_gate :
+  forall (T : tables) (loaded : list bytes) (name : bytes) (d : cmddef),
+  get_command_instance T loaded name = inl d ->
+  match d_extension d with
+  | Some (c :: e) => mem (c :: e) loaded = true
+  | _ => True
+  end.
+Proof. exact GateFacts.gci_gate. Qed.
+Print Assumptions C07_command_gate.
+
+(* a slot takes a tag / match type only while the extension owning the slot or the value is loaded *)
+Theorem C07_argument_gate :
+  forall (f : frame) (t : atype) (v : aval) (add : bool) (loaded : list bytes) 
+    (f' : frame) (ca : argdef),
+  check_next_arg f t v add true loaded = CnaOk f' (Some ca) ->
+  In ca (d_args (f_def f)) /\
+  (a_required ca = true /\ a_type ca = [TyTestList] /\ f' = f \/
+   (a_required ca = false ->
+    match a_extension ca with
+    | Some (c :: e) => mem (c :: e) loaded = true
+    | _ => True
+    end) /\
+   (forall (s : bytes) (m : list (bytes * bytes)) (c : N) (e : list N),
+    v = VStr s ->
+    match a_values ca with
+    | Some l => mem (lower s) l
+    | None => false
+    end = false ->
+    a_extension_values ca = Some m ->
+    assoc_get (lower s) m = Some (c :: e) -> mem (c :: e) loaded = true)).
+Proof. exact GateFacts.cna_gate. Qed.
+Print Assumptions C07_argument_gate.
+
+(* the invariant holds in every reachable state *)
+Theorem C07_reachable_inv :
+  forall (T : tables) (st : pstate), wf_tables T = true -> reachable T st -> inv st.
+Proof. exact GateFacts.reachable_inv. Qed.
+Print Assumptions C07_reachable_inv.
+
+(* every accepted input whatsoever: all extensions needed anywhere in the tree are loaded *)
+Theorem C07_accept :
+  forall (T : tables) (text : bytes) (r : list node),
+  wf_tables T = true ->
+  parse T text = Accept r ->
+  exists st : pstate,
+    reachable T st /\
+    r = p_result st /\
+    (forall (fuel : nat) (n : node) (e : bytes),
+     In n r -> In e (needs fuel n) -> mem e (p_loaded st) = true).
+Proof. exact GateFacts.gate_accept. Qed.
+Print Assumptions C07_accept.
+
+(* ... instantiated with the tables generated from /repo *)
+Theorem C07_accept_generated_tables :
+  forall (text : bytes) (r : list node),
+  parse gen_tables text = Accept r ->
+  exists st : pstate,
+    reachable gen_tables st /\
+    r = p_result st /\
+    (forall (fuel : nat) (n : node) (e : bytes),
+     In n r -> In e (needs fuel n) -> mem e (p_loaded st) = true).
+Proof. exact GateFacts.gate_accept_gen. Qed.
+Print Assumptions C07_accept_generated_tables.
+
+(* obligations over the generated tables, re-checked on every run *)
+Theorem C07_tables_wf : wf_tables gen_tables = true.
+Proof. vm_compute. reflexivity. Qed.
+Print Assumptions C07_tables_wf.
+
+Theorem C07_tables_cover_frozen : covers gen_tables = true.
+Proof. vm_compute. reflexivity. Qed.
+Print Assumptions C07_tables_cover_frozen.
+
+Theorem C07_no_blind_spot :
+  forallb (fun kd => forallb slot_no_blind_spot (d_args (snd kd))) gen_tables = true.
+Proof. vm_compute. reflexivity. Qed.
+Print Assumptions C07_no_blind_spot.
+
+(* end to end for the command entries of the frozen table *)
+Theorem C07_frozen_command :
+  forall (T : tables) (text : bytes) (r : list node) (n : node) (k ext : bytes),
+  wf_tables T = true ->
+  covers T = true ->
+  parse T text = Accept r ->
+  In n r ->
+  In (k, ext) frozen_commands ->
+  lookup_cmd T k = Some (node_def n) ->
+  exists st : pstate, reachable T st /\ r = p_result st /\ mem ext (p_loaded st) = true.
+Proof. exact GateFacts.frozen_command_gate. Qed.
+Print Assumptions C07_frozen_command.
+
+(* end to end for tags and match types covered by a slot *)
+Theorem C07_covered_tag :
+  forall (T : tables) (text : bytes) (r : list node) (n : node) (name s : bytes) 
+    (a : argdef) (c : N) (e : list N),
+  wf_tables T = true ->
+  parse T text = Accept r ->
+  In n r ->
+  In (name, VStr s) (node_args n) ->
+  find_slot (node_def n) name = Some a ->
+  slot_covers (lower s) (c :: e) a = true ->
+  exists st : pstate, reachable T st /\ r = p_result st /\ mem (c :: e) (p_loaded st) = true.
+Proof. exact GateFacts.covered_tag_gate. Qed.
+Print Assumptions C07_covered_tag.
+
+(* non-vacuity and the removal direction on concrete scripts (computed on the model) *)
+Example C07_needs_example :
+  match parse gen_tables
+          (bs "require [""fileinto"",""copy"",""relational""]; if header :count ""ge"" ""a"" ""1"" { fileinto :copy ""x""; }")
+  with
+  | Accept r => flat_map (needs 5) r = [bs "relational"; bs "fileinto"; bs "copy"]
+  | _ => False
+  end.
+Proof. vm_compute. reflexivity. Qed.
+
+Example C07_removal_command :
+  parse gen_tables (bs "fileinto ""x"";") = Reject (EExtNotLoaded (bs "fileinto")) 0 8.
+Proof. vm_compute. reflexivity. Qed.
+
+Example C07_removal_tag :
+  parse gen_tables (bs "require ""fileinto""; fileinto :copy ""x"";") = Reject (EExtNotLoaded (bs "copy")) 29 5.
+Proof. vm_compute. reflexivity. Qed.
+
+Example C07_removal_match_type :
+  parse gen_tables (bs "if header :count ""ge"" ""a"" ""1"" {}") = Reject (EExtNotLoaded (bs "relational")) 10 6.
+Proof. vm_compute. reflexivity. Qed.
+
+(* first missing extension in script order: both copy and relational are missing, relational comes first *)
+Example C07_removal_first_in_order :
+  parse gen_tables (bs "require ""fileinto""; if header :count ""ge"" ""a"" ""1"" { fileinto :copy ""x""; }")
+  = Reject (EExtNotLoaded (bs "relational")) 30 6.
+Proof. vm_compute. reflexivity. Qed.
